@@ -16,7 +16,15 @@ WRAPS = ('poll', 'recv', 'send', 'connect', 'getsockopt', 'accept', 'socket', 'c
          'clock_gettime', 'bind', 'setsockopt')
 
 
-def build(ctx, nopool):
+def build(ctx, nopool, nosignal_workaround=False):
+    """nosignal_workaround: the library as it is built where MSG_NOSIGNAL is
+    missing (-DPOSIXFAIL_MSG_NOSIGNAL: send() bracketed by signal(SIGPIPE, ...)
+    calls); signal() is interposed and leaves errno changed, as POSIX allows."""
+    if nosignal_workaround:
+        objs = ctx.builder.lib('asan', SRCS, nopool=nopool, defs=('POSIXFAIL_MSG_NOSIGNAL',))
+        return ctx.builder.driver('c07w', 'asan', ['c07_netbuf.c', 'common/simk.c'], objs,
+                                  wraps=WRAPS + ('signal', '__sysv_signal'), libs=(), nopool=nopool,
+                                  defs=('SIMK_WRAP_SIGNAL',))
     objs = ctx.builder.lib('asan', SRCS, nopool=nopool)
     return ctx.builder.driver('c07', 'asan', ['c07_netbuf.c', 'common/simk.c'], objs,
                               wraps=WRAPS, libs=(), nopool=nopool)
@@ -42,6 +50,11 @@ def run(ctx):
         exe = build(ctx, bool(mode))
         for i in range(core.NCPU):
             jobs.append((exe, ctx.seed * 4447 + 11 + mode, i * per, per, ['nopool' if mode else 'pool'], None, 600 if ctx.quick() else 5000))
+    # the MSG_NOSIGNAL work-around build (a quarter of the cases again)
+    wexe = build(ctx, False, nosignal_workaround=True)
+    wper = max(1, per // 4)
+    for i in range(core.NCPU):
+        jobs.append((wexe, ctx.seed * 4447 + 99, i * wper, wper, ['pool'], None, 600 if ctx.quick() else 5000))
     # real-kernel soak: same oracles (no timing rules) over AF_UNIX socketpairs with a forked scripted peer
     rexe = build_real(ctx)
     rper = ctx.n(40, 600)
